@@ -105,6 +105,7 @@ uint8_t *vh_gfront(int a, size_t n, int mis);
 /* Verify the canaries of arena a; returns 0 if intact, else 1 and writes
  * the first damaged offset relative to the buffer into *where. */
 int vh_gcheck(int a, long *where);
+void vh_gprotect(int a, int readonly);   /* PROT_READ on the arena's data pages while a call may only read the buffer placed there */
 /* address attribution for the fault handler: returns arena or -1 */
 int vh_gwhich(const void *addr, long *rel, int *a_is_guard);
 /* make slack addressable again (asan/memcheck builds) */
